@@ -198,6 +198,11 @@ def do(line):
     if c == 'C':
         v, strict = unhex(w[1]), w[2] == '1'
         return attempt(cls, lambda: cls(v, raise_on_unrecognized=strict))
+    if c == 'P':                  # the same conversion with a numpy integer (what the file index passes)
+        import numpy as np
+        v, strict = unhex(w[1]), w[2] == '1'
+        nv = np.uint16(v) if 0 <= v < 2 ** 16 else np.int64(v) if -2 ** 63 <= v < 2 ** 63 else v
+        return attempt(cls, lambda: cls(nv, raise_on_unrecognized=strict))
     if c == 'A':
         return adapter(cls, unhex(w[1]), w[2] == '1')
     if c == 'N':
